@@ -62,8 +62,9 @@ def materialise(root, layout, names, markers, variants=None, broken=None):
         if item["k"] == "f":
             if os.path.isdir(p):
                 raise Conflict()
-            if path not in markers:
-                markers[path] = 1001 + len(markers)
+            if path in markers:          # the same file named twice among the arguments: it keeps the content it got first
+                return p
+            markers[path] = 1001 + len(markers)
             var = ""
             if ext_of(name) == "lp":
                 var = variants.get(nlp[0], "")
